@@ -39,18 +39,58 @@ func strArg(v value) string {
 	return s
 }
 
+// keyOrPick: a look-up key that is either concrete, or symbolic - then the path forks over the registered
+// keys of the same length (in sorted order) and "none of them".
+func (i *interpreter) keyOrPick(v value, keys []string) (string, bool) {
+	if s, ok := v.(string); ok {
+		return s, true
+	}
+	ss, ok := v.(symstr)
+	if !ok {
+		unsup("native look-up with a key of type %T", v)
+	}
+	sort.Strings(keys)
+	for _, k := range keys {
+		if len(k) != len(ss) {
+			continue
+		}
+		if i.branch(i.eqTerm(types.Typ[types.String], ss, k)) {
+			return k, true
+		}
+	}
+	return "", false
+}
+
 var nativeHandlers = map[string]nativeHandler{
 	"github.com/invopop/gobl/currency.Get": func(i *interpreter, args []value) value {
-		return i.importNative(reflect.ValueOf(currency.Get(currency.Code(strArg(args[0])))))
+		var keys []string
+		if _, sym := args[0].(symstr); sym {
+			for _, d := range currency.Definitions() {
+				keys = append(keys, string(d.ISOCode))
+			}
+		}
+		k, found := i.keyOrPick(args[0], keys)
+		if !found {
+			return i.importNative(reflect.ValueOf((*currency.Def)(nil)))
+		}
+		return i.importNative(reflect.ValueOf(currency.Get(currency.Code(k))))
 	},
 	"github.com/invopop/gobl/currency.Definitions": func(i *interpreter, args []value) value {
 		return i.importNative(reflect.ValueOf(currency.Definitions()))
 	},
 	"github.com/invopop/gobl/tax.RegimeDefFor": func(i *interpreter, args []value) value {
-		return i.importNative(reflect.ValueOf(tax.RegimeDefFor(l10n.Code(strArg(args[0])))))
+		k, found := i.keyOrPick(args[0], regimeKeys(args[0]))
+		if !found {
+			return i.importNative(reflect.ValueOf((*tax.RegimeDef)(nil)))
+		}
+		return i.importNative(reflect.ValueOf(tax.RegimeDefFor(l10n.Code(k))))
 	},
 	"(*github.com/invopop/gobl/tax.RegimeDefCollection).For": func(i *interpreter, args []value) value {
-		return i.importNative(reflect.ValueOf(tax.Regimes().For(l10n.Code(strArg(args[1])))))
+		k, found := i.keyOrPick(args[1], regimeKeys(args[1]))
+		if !found {
+			return i.importNative(reflect.ValueOf((*tax.RegimeDef)(nil)))
+		}
+		return i.importNative(reflect.ValueOf(tax.Regimes().For(l10n.Code(k))))
 	},
 	"github.com/invopop/gobl/tax.AllRegimeDefs": func(i *interpreter, args []value) value {
 		return i.importNative(reflect.ValueOf(tax.AllRegimeDefs()))
@@ -74,6 +114,17 @@ var nativeHandlers = map[string]nativeHandler{
 	"github.com/invopop/gobl/tax.ExtensionForKey": func(i *interpreter, args []value) value {
 		return i.importNative(reflect.ValueOf(tax.ExtensionForKey(cbc.Key(strArg(args[0])))))
 	},
+}
+
+func regimeKeys(v value) []string {
+	if _, sym := v.(symstr); !sym {
+		return nil
+	}
+	var keys []string
+	for _, r := range tax.AllRegimeDefs() {
+		keys = append(keys, string(r.Country))
+	}
+	return keys
 }
 
 func init() {
